@@ -67,7 +67,7 @@ func checks() []Check {
 			ID: "C13", Level: "model_checking",
 			Rule:        "stateless model checking: every interleaving (up to a preemption bound, iterated) of small thread configurations calling Enqueue/Dequeue on the real lockFreeQueue, with every atomic load/CAS/add a scheduling point; an execution is one evaluation; distinct_nontrivial = distinct observed dequeue-result vectors summed over configurations; each history is checked for linearizability against the sequential FIFO by brute force",
 			Assumptions: append([]string{"sequentially consistent interleavings (Go atomics are SC); non-atomic accesses are C05's business", "fairness: after 60 consecutive steps of one thread while another is enabled the scheduler rotates (cuts only unfair infinite executions)"}, commonAssumptions...),
-			Units:       []Unit{{Name: "queue", Pkg: "pkg/queue", Test: "TestMC_C13", Instrument: true, InstrPkgs: []string{"pkg/queue"}, Shards: 9, ShardsThorough: 13, BudgetQuick: 200, BudgetThorough: 1500, Env: []string{"GOMAXPROCS=2"}}},
+			Units:       []Unit{{Name: "queue", Pkg: "pkg/queue", Test: "TestMC_C13", Instrument: true, InstrPkgs: []string{"pkg/queue"}, Shards: 11, ShardsThorough: 15, BudgetQuick: 200, BudgetThorough: 1500, Env: []string{"GOMAXPROCS=2"}}},
 		},
 		{
 			ID: "C14", Level: "model_checking",
